@@ -40,6 +40,171 @@ def _element_dicts(run, fn, ctor_name):
     return out
 
 
+def _ui_pages(run, PV, D, ua, g, uo):
+    """R4u: the UI attestation exchange: order of the requests and one page-loop iteration as a decision table."""
+    P, A = run.P, run.A
+    from sa.decide import Walker, cmp_parts, completions, subst
+    run.rule("R4u", "UI attestation gathering: the requests are UI_ATT | APP_HASH, UI_ATT | UD_VALUE | hexdecode(the ud value given) - once, before any page or signature "
+             "request - then pages UI_ATT | GET_MSG | n for n = 0, 1, 2, ... and UI_ATT | GET. One page-loop iteration, with LIMIT = (n == MAX_PAGES_UI_ATT_MESSAGE) "
+             "tested before the request and MORE = (answer[DATA] != 0): LIMIT -> raises without a request; otherwise one request, the message grows by "
+             "answer[DATA+1:] exactly once, MORE -> next iteration with n + 1, not MORE -> the loop is left and the result is returned. n starts at 0 and the "
+             "message empty; the result is {app_hash: APP_HASH answer[DATA:], message: the pages, signature: GET answer[DATA:]}, hex-encoded.")
+    okd, DATA = try_fold(P, ast.parse("self.OFF.DATA", mode="eval").body, ua, D)
+    run.require(okd, "OFF.DATA not foldable")
+    DATA = unwrap(DATA)
+    MAXP = P.class_const(D, "MAX_PAGES_UI_ATT_MESSAGE")
+    L = Layout(lambda e: try_fold(P, e, ua, D))
+    locs = sorted(set(PV.defs(ua, D)))
+    sends = send_sites(run, ua)
+    run.floor("R4u", "exchanges in get_ui_attestation", len(sends), 4)
+    kinds = {}
+    PG = None
+    for c, cmd in sends:
+        okc = isinstance(cmd, EnumMember) and cmd.name == "UI_ATT"
+        run.check("R4u", okc, "every request of the UI attestation goes to UI_ATT", key=f"get_ui_attestation|command|{getattr(c, 'lineno', 0)}", where=ua.loc(c),
+                  message=f"get_ui_attestation sends command `{norm(c.args[0])[:40]}`, expected self.CMD.UI_ATT")
+        lay = None
+        for cn in g.nodes_of(c):
+            for stop in [()] + [(nm,) for nm in locs]:
+                try:
+                    ls = {L.canon(x) for x in PV.expand_consistent(ua, D, c.args[1], cn, stop=stop)} if len(c.args) > 1 else set()
+                except AnalysisError:
+                    continue
+                if len(ls) == 1:
+                    lay = next(iter(ls))
+                    m_ = re.fullmatch(rf"u8\({uo['OP_GET_MSG'].value}\) \| u8\((\w+)\)", lay)
+                    if m_ and stop == (m_.group(1),):
+                        PG = m_.group(1)
+                        lay = "PAGE"
+                        break
+                    if not stop:
+                        break
+                    lay = None
+        kinds.setdefault(lay, []).append(c)
+    p = ua.params[1]
+    want_kinds = {f"u8({uo['OP_APP_HASH'].value})": "the UI hash request", f"u8({uo['OP_UD_VALUE'].value}) | hex({p})": "the UD value", "PAGE": "the page request",
+                  f"u8({uo['OP_GET'].value})": "the signature request"}
+    for k, what in want_kinds.items():
+        run.check("R4u", len(kinds.get(k, [])) == 1, f"{what} is sent from one place", key=f"get_ui_attestation|request|{what}", where=ua.loc(),
+                  message=f"get_ui_attestation has {len(kinds.get(k, []))} request sites for {what} (`{k}`); requests found: {sorted(str(x) for x in kinds)}")
+    extra = sorted(str(k) for k in kinds if k not in want_kinds)
+    run.check("R4u", not extra, "no other request", key="get_ui_attestation|request|extra", where=ua.loc(), message=f"get_ui_attestation also sends {extra}")
+    if any(len(kinds.get(k, [])) != 1 for k in want_kinds) or PG is None:
+        return
+    ud, pg, sg, ah = (kinds[k][0] for k in (f"u8({uo['OP_UD_VALUE'].value}) | hex({p})", "PAGE", f"u8({uo['OP_GET'].value})", f"u8({uo['OP_APP_HASH'].value})"))
+    for later, what in ((pg, "a page"), (sg, "the signature")):
+        okd_ = all(any(g.dominates(a, b) for a in g.nodes_of(ud)) for b in g.nodes_of(later))
+        run.check("R4u", okd_, f"the UD value is sent before {what} is requested", key=f"get_ui_attestation|ud-first|{what}", where=ua.loc(later),
+                  message=f"{what} of the UI attestation can be requested without the UD value having been sent: the device signs over a stale or empty user-defined value")
+    okd_ = all(any(g.dominates(a, b) for a in g.nodes_of(pg)) for b in g.nodes_of(sg))
+    run.check("R4u", okd_, "the message is gathered before the signature request (which resets the device's state)", key="get_ui_attestation|pages-before-get", where=ua.loc(sg),
+              message="the signature can be requested before the message pages were read: OP_GET resets the attestation state and the pages are gone")
+    loops = [n for n in A.own_nodes(ua) if isinstance(n, ast.While) and any(x is pg for x in ast.walk(n))]
+    run.require(len(loops) == 1, "get_ui_attestation: the page loop (while ...: request page) was not identified")
+    loop = loops[0]
+    head, after = c06._while_nodes(g, loop)
+    run.require(head is not None, "get_ui_attestation: page loop structure not understood")
+    t_edges = [n for n in g.nodes if n.kind == "T" and n.cond is not None and n.cond.ast is loop.test]
+    run.require(len(t_edges) == 1, "get_ui_attestation: page loop entry edge not found")
+    state = {"W": None}
+
+    def resolve(e):
+        b = state["W"]._bind or {}
+        for _ in range(6):
+            names = {n.id for n in ast.walk(e) if isinstance(n, ast.Name)}
+            hit = {k: v for k, v in b.items() if k in names}
+            if not hit:
+                break
+            e = subst(e, hit)
+        return e
+
+    def is_answer(x):
+        x = resolve(x)
+        return isinstance(x, ast.Call) and call_name(x) == "_send_command"
+
+    def atom(e):
+        cp = cmp_parts(e)
+        if cp is None:
+            return None
+        l, op, r = cp
+        okr, rv = try_fold(P, r, ua, D)
+        rv = unwrap(rv) if okr else None
+        if isinstance(l, ast.Name) and l.id == PG and rv == MAXP:
+            if op in ("==", ">=", "<", "!="):
+                return ("LIMIT", op in ("==", ">="))
+        if isinstance(l, ast.Subscript) and not isinstance(l.slice, ast.Slice) and try_fold(P, l.slice, ua, D) == (True, DATA) and is_answer(l.value):
+            tab = {("==", 0): False, ("!=", 0): True, ("==", 1): True, ("!=", 1): False, (">", 0): True, ("<=", 0): False, (">=", 1): True, ("<", 1): False}
+            if (op, rv) in tab:
+                return ("MORE", tab[(op, rv)])
+        return None
+    W = Walker(A, ua, D, atom, max_leaves=64)
+    state["W"] = W
+    n_cases = 0
+    acc_names = set()
+    for lf in W.walk(t_edges[0], stops={head}):
+        unknown = sorted(k[1:] for k in lf.pc if isinstance(k, str) and k.startswith("?"))
+        where = ua.loc(lf.node.ast) if lf.node.ast is not None else ua.loc(loop)
+        run.check("R4u", not unknown, "the page loop decides on the page limit and the continuation flag only", key=f"get_ui_attestation|pages|extra|{';'.join(unknown)[:60]}", where=where,
+                  message=f"the UI attestation page loop decides on `{'`, `'.join(unknown)[:120]}`: neither the page limit (tested before the request) nor the answer's continuation flag")
+        if unknown:
+            continue
+        kind = "next" if lf.kind == "stop" else ("done" if lf.kind == "return" else lf.kind)
+        state["W"]._bind = lf.bind
+        reqs = [st_ for k_, st_, v_ in lf.effects if k_ in ("assign", "expr") and any(x is pg for x in ast.walk(st_))]
+        apps = [(st_, v_) for k_, st_, v_ in lf.effects if k_ == "aug" and isinstance(st_.target, ast.Name) and isinstance(st_.op, ast.Add)
+                and any(isinstance(x, ast.Subscript) for x in ast.walk(st_.value)) and st_.target.id != PG]
+        for val in completions({k: b for k, b in lf.pc.items() if k in ("LIMIT", "MORE")}, ["LIMIT", "MORE"]):
+            n_cases += 1
+            desc = f"page limit {'reached' if val['LIMIT'] else 'not reached'}, more pages {'announced' if val['MORE'] else 'not announced'}"
+            if val["LIMIT"]:
+                run.check("R4u", kind == "raise" and not reqs and "LIMIT" in lf.pc, f"[{desc}] raises without a request", key=f"get_ui_attestation|pages|limit|{val['MORE']}", where=where,
+                          message=f"UI attestation page loop, case [{desc}]: the iteration does `{kind}` with {len(reqs)} request(s); expected the page-limit error before any request")
+                continue
+            want = "next" if val["MORE"] else "done"
+            run.check("R4u", kind == want and "MORE" in lf.pc and "LIMIT" in lf.pc, f"[{desc}] -> {want}", key=f"get_ui_attestation|pages|flow|{val['MORE']}", where=where,
+                      message=f"UI attestation page loop, case [{desc}]: the iteration ends in `{kind}`, expected `{want}` (the device's flag byte says whether another page "
+                              "follows; the limit is tested before each request)")
+            run.check("R4u", len(reqs) == 1, f"[{desc}] one page request", key=f"get_ui_attestation|pages|requests|{val['MORE']}", where=where,
+                      message=f"UI attestation page loop, case [{desc}]: {len(reqs)} page requests in one iteration")
+            off = None
+            if len(apps) == 1:
+                v = resolve(apps[0][1])
+                acc_names.add(apps[0][0].target.id)
+                if isinstance(v, ast.Subscript) and isinstance(v.slice, ast.Slice) and v.slice.upper is None and v.slice.step is None and is_answer(v.value):
+                    okl, lo = try_fold(P, v.slice.lower, ua, D) if v.slice.lower is not None else (True, 0)
+                    off = unwrap(lo) - DATA if okl and isinstance(unwrap(lo), int) else None
+            run.check("R4u", len(apps) == 1 and off == 1, f"[{desc}] the message grows by answer[DATA+1:]", key=f"get_ui_attestation|pages|append|{val['MORE']}", where=where,
+                      message=f"UI attestation page loop, case [{desc}]: the iteration appends {[norm(resolve(a[1]))[:50] for a in apps]} (offset {off} after the data start); "
+                              "expected exactly answer[DATA+1:], once - the page without its flag byte")
+            if val["MORE"]:
+                nxt = lf.env.get(PG)
+                run.check("R4u", nxt is not None and norm(nxt) in (f"{PG} + 1", f"1 + {PG}"), f"[{desc}] next page is n + 1", key="get_ui_attestation|pages|counter", where=where,
+                          message=f"UI attestation page loop, case [{desc}]: the page number becomes `{norm(nxt) if nxt is not None else PG + ' (unchanged)'}`, expected {PG} + 1")
+    run.floor("R4u", "page-loop cases of get_ui_attestation", n_cases, 3)
+    # start values
+    outside = lambda d: not any(d.node is x for x in ast.walk(loop))   # noqa: E731
+    for nm, want, what in [(PG, 0, "the first page requested is page 0")] + [(a, b"", "the message starts empty") for a in sorted(acc_names)]:
+        ds = [d for d in PV.defs(ua, D).get(nm, []) if d.kind == "assign" and outside(d)]
+        okv = len(ds) == 1 and isinstance(ds[0].value, ast.Constant) and ds[0].value.value == want and type(ds[0].value.value) is type(want)
+        run.check("R4u", okv, what, key=f"get_ui_attestation|pages|start|{nm}", where=ua.loc(ds[0].node) if ds else ua.loc(),
+                  message=f"before the page loop `{nm}` is {[norm(d.value) for d in ds]}; expected {want!r}: {what}")
+    # the result
+    for r in [n for n in A.own_nodes(ua) if isinstance(n, ast.Return)]:
+        if not isinstance(r.value, ast.Dict):
+            run.fail("R4u", "get_ui_attestation|result|shape", ua.loc(r), f"get_ui_attestation returns `{norm(r.value)[:60]}`, not the three-field result")
+            continue
+        d = {k.value: v for k, v in zip(r.value.keys, r.value.values) if isinstance(k, ast.Constant)}
+        for rn in g.nodes_of(r):
+            for key, src in (("app_hash", ah), ("signature", sg)):
+                got = {_strip(x) for x in PV.expand_consistent(ua, D, d[key], rn)} if key in d else set()
+                w = _strip(f"{norm(src)}[self.OFF.DATA:].hex()")
+                run.check("R4u", got == {w}, f"result.{key} is the data of its answer, hex-encoded", key=f"get_ui_attestation|result|{key}", where=ua.loc(r),
+                          message=f"get_ui_attestation returns {key} = {sorted(got)[:1]}, expected `{w}`")
+            got = {_strip(x) for x in PV.expand_consistent(ua, D, d["message"], rn, stop=tuple(acc_names))} if "message" in d else set()
+            run.check("R4u", len(acc_names) == 1 and got == {f"{next(iter(acc_names))}.hex()"} and set(d) == {"app_hash", "message", "signature"}, "result.message is the gathered pages, hex-encoded",
+                      key="get_ui_attestation|result|message", where=ua.loc(r), message=f"get_ui_attestation returns message = {sorted(got)[:1]} / fields {sorted(d)}")
+
+
 def _powhsm_pages(run, PV, PA, pr, g):
     """R4 (pages): one iteration of the page loop of PowHsmAttestation.run as a decision table."""
     P, A = run.P, run.A
@@ -627,6 +792,7 @@ def run(run):
     md = [d for d in PV.defs(ua, D).get("message", []) if d.kind == "aug"]
     run.check("R4", len(md) == 1 and norm(md[0].node.value) == "response[self.OFF.DATA + 1:]", "message accumulates each page's data after the flag byte",
               key="get_ui_attestation|page-data", where=ua.loc(), message="the page data appended is not response[DATA+1:]")
+    _ui_pages(run, PV, D, ua, gu, uo)
     # powhsm attestation result fields
     pr = P.method(PA, "run")
     gp = A.cfg(pr, PA)
